@@ -318,6 +318,7 @@ func runC05(c *core.Ctx) {
 		return "ok"
 	}
 
+	idleStreak := 0
 	step := func(faulty bool) {
 		early = 0
 		if faulty && fd != nil {
@@ -333,9 +334,22 @@ func runC05(c *core.Ctx) {
 		case 0:
 			if !serve(faulty) {
 				d := []time.Duration{time.Second, delay, 10 * time.Second}[t.Draw(3)]
+				if !faulty {
+					// epilogue with nothing to serve: wait in growing steps (the liveness budget is tens
+					// of simulated minutes per block; thousands of one second events add nothing)
+					idleStreak++
+					if idleStreak > 10 {
+						d = time.Minute
+					}
+					if idleStreak > 30 {
+						d = 5 * time.Minute
+					}
+				}
 				advance(d)
 				c.AddSimTime(int64(d))
 				c.Event("advance %v (idle)", d)
+			} else {
+				idleStreak = 0
 			}
 		case 1:
 			d := []time.Duration{time.Second, delay, 10 * time.Second, time.Minute}[t.Draw(4)]
